@@ -16,3 +16,10 @@ fn f1_invperm_repeated_entry_rejected() {
     let opts = QDLDLSettingsBuilder::<f64>::default().perm(vec![2, 2, 0]).build().unwrap();
     assert!(QDLDLFactorisation::new(&a3, Some(opts)).is_err(), "perm [2,2,0] accepted");
 }
+
+/// F2 (C16): a column pointer that does not start at zero is not a canonical encoding.
+#[test]
+fn f2_check_format_rejects_colptr_not_starting_at_zero() {
+    let a = CscMatrix::<f64> { m: 3, n: 2, colptr: vec![1, 2, 2], rowval: vec![1, 2], nzval: vec![1.0, 1.0] };
+    assert!(a.check_format().is_err(), "colptr = [1,2,2] accepted as canonical");
+}
